@@ -16,6 +16,17 @@ pub struct Case {
     pub conv: Conversation,
     /// enumerate only every `stride`-th fault point (1 = all)
     pub stride: usize,
+    /// run the conversation over TLS instead and end it at TLS-level points (see `exec_tls`)
+    #[serde(default)]
+    pub tls: Option<TlsEnds>,
+}
+
+#[derive(Clone, Debug, Serialize, Deserialize)]
+pub struct TlsEnds {
+    pub tls13: bool,
+    pub lockstep: bool,
+    /// choices for the sampled end-of-stream positions inside the TLS handshake
+    pub picks: Vec<u32>,
 }
 
 pub const KEY_DROP_PANIC: &str = "c19-panic-in-writer-drop";
@@ -34,7 +45,7 @@ impl Prop for C19 {
         "fault_enumeration"
     }
     fn rule(&self) -> String {
-        "cases = a generated conversation (C03-style: writer programs with explicit finishes and drops, prepared statements, QUIT- or EOF-terminated, generated read/write chunking) run fault-free to obtain its operation trace (N transport operations, B inbound bytes), then re-run with EVERY fault point: end-of-stream after k bytes for k = 0..B; a one-off error at operation k and a persistent error from operation k (each with io::ErrorKind ConnectionReset, UnexpectedEof and one of Other / BrokenPipe / TimedOut), write() -> Ok(0) at operation k for k = 0..N-1, and a read interrupted with ErrorKind::Interrupted at every read operation (which the library may either report or retry transparently, but the callback log must stay a prefix of the fault-free log); plus a tagged shim error at every callback index; enumerated conversations whose response contains a packet of 2^24-1 bytes or more (written explicitly and from a destructor). Oracle: EOF => Ok iff k is a command boundary at or after the end of the handshake exchange (or QUIT was already consumed), else Err; transport fault => Err (never Ok, never a panic), the callback log is a prefix of the fault-free log and no callback starts after the fault; shim error => returned unchanged, no later callback. evaluations counts conversations; faulted_runs counts the enumerated re-runs. Non-trivial = the conversation has >= 3 commands and >= 1 resultset program.".into()
+        "cases = a generated conversation (C03-style: writer programs with explicit finishes and drops, prepared statements, QUIT- or EOF-terminated, generated read/write chunking) run fault-free to obtain its operation trace (N transport operations, B inbound bytes), then re-run with EVERY fault point: end-of-stream after k bytes for k = 0..B; a one-off error at operation k and a persistent error from operation k (each with io::ErrorKind ConnectionReset, UnexpectedEof and one of Other / BrokenPipe / TimedOut), write() -> Ok(0) at operation k for k = 0..N-1, and a read interrupted with ErrorKind::Interrupted at every read operation (which the library may either report or retry transparently, but the callback log must stay a prefix of the fault-free log); plus a tagged shim error at every callback index; enumerated conversations whose response contains a packet of 2^24-1 bytes or more (written explicitly and from a destructor); one generated conversation in twelve is instead run over TLS (rustls client in the transport) and ended at TLS-level points: a clean close (close_notify + end of stream) after the first m messages for every m (m = 0: TLS session established but no handshake response => Err and no callback; m >= 1 => Ok), and an abrupt end of stream at 10 sampled positions before the encrypted handshake response is complete (=> Err, no callback). Oracle: EOF => Ok iff k is a command boundary at or after the end of the handshake exchange (or QUIT was already consumed), else Err; transport fault => Err (never Ok, never a panic), the callback log is a prefix of the fault-free log and no callback starts after the fault; shim error => returned unchanged, no later callback. evaluations counts conversations; faulted_runs counts the enumerated re-runs. Non-trivial = the conversation has >= 3 commands and >= 1 resultset program.".into()
     }
     fn exhaustive_note(&self, _tier: Tier) -> Option<String> {
         Some("fault points of each generated conversation (all k for EOF / one-off / persistent / zero-write faults, all callback indexes for shim errors)".into())
@@ -54,7 +65,18 @@ impl Prop for C19 {
         if len > 600 && conv.sched.sizes.iter().all(|&s| s < 8) {
             conv.sched.sizes.push(4096);
         }
-        Case { conv, stride: 1 }
+        // one case in twelve: the same questions over TLS (clean close after each message, end of
+        // stream inside the TLS handshake)
+        let tls = if g.chance(1, 12) { Some(TlsEnds { tls13: g.coin(), lockstep: g.chance(2, 3), picks: (0..10).map(|_| g.raw()).collect() }) } else { None };
+        if tls.is_some() {
+            conv.hs = Handshake::default_user("tlsuser");
+            if let HsKind::V41 { caps, .. } = &mut conv.hs.kind {
+                *caps |= crate::wire::CAP_SSL;
+            }
+            conv.hs.seq = 2;
+            conv.sched = Schedule::all_at_once();
+        }
+        Case { conv, stride: 1, tls }
     }
     fn fixed(&self, tier: Tier) -> Vec<Case> {
         // responses containing a packet of 2^24-1 bytes or more, written explicitly and from the
@@ -92,7 +114,7 @@ impl Prop for C19 {
                 } else {
                     Conversation::new(vec![Cmd::Query { text: Blob::text("big") }, Cmd::Ping], vec![Action::Result(prog)])
                 };
-                v.push(Case { conv, stride: 1 });
+                v.push(Case { conv, stride: 1, tls: None });
             }
         }
         v
@@ -100,6 +122,10 @@ impl Prop for C19 {
     fn exec(&self, case: &Case) -> Exec {
         let mut ex = Exec::default();
         let c = &case.conv;
+        if let Some(t) = &case.tls {
+            exec_tls(c, t, &mut ex);
+            return ex;
+        }
         let base = run_with(c, None, false);
         if !base.result.is_ok() {
             ex.fail(
@@ -292,4 +318,112 @@ impl Prop for C19 {
 
 fn is_prefix(got: &[Event], base: &[Event]) -> bool {
     got.len() <= base.len() && got.iter().zip(base).all(|(a, b)| a == b)
+}
+
+
+/// The conversation over TLS (rustls client embedded in the transport), ended at TLS-level points:
+/// (a) the client closes cleanly (close_notify, then end of stream) after its first m messages
+/// were answered, for every m: m = 0 (TLS session up, no handshake response yet) is a connection
+/// that ends before the handshake completes => Err and no callback; m >= 1 is a close at a
+/// command boundary => Ok; (b) the byte stream ends abruptly at sampled positions before the
+/// encrypted handshake response was delivered => Err and no callback.
+fn exec_tls(c: &Conversation, t: &TlsEnds, ex: &mut Exec) {
+    use crate::tlspeer::*;
+    use crate::wire::*;
+    ex.class("over-tls");
+    ex.nontrivial = true;
+    let fx = crate::tlsfix::fixtures();
+    let caps = match &c.hs.kind {
+        HsKind::V41 { caps, .. } => *caps,
+        _ => CAP_PROTOCOL_41 | CAP_SSL,
+    };
+    let mut ssl_req = Vec::new();
+    frame_into(&mut ssl_req, &ssl_request(caps, 1 << 24, 0x21), 1);
+    let mut messages = Vec::new();
+    let mut m0 = Vec::new();
+    frame_into(&mut m0, &c.hs.payload(), 2);
+    messages.push(m0);
+    let mut kinds = vec![ReplyKind::OkOrErr];
+    for sc in &c.cmds {
+        let mut m = Vec::new();
+        frame_into(&mut m, &sc.cmd.payload(), sc.seq);
+        messages.push(m);
+        kinds.push(sc.cmd.reply_kind());
+    }
+    let run_tls = |m: usize, fault: Fault, lockstep: bool| {
+        let (peer, log) = TlsClientPeer::new(client_config(t.tls13, false, 0), ssl_req.clone(), messages[..m].to_vec(), kinds[..m].to_vec(), lockstep);
+        let tr = Transport::new(Vec::new(), Schedule::all_at_once(), fault);
+        tr.0.borrow_mut().peer = Some(Box::new(peer));
+        let o = run_raw_tls(c, tr, Some(fx.server_plain.clone()));
+        (o, log)
+    };
+    let (base, blog) = run_tls(messages.len(), Fault::None, t.lockstep);
+    let mut runs = 1u64;
+    if let RunResult::Panic(p) = &base.result {
+        ex.fail(format!("c19-tls-panic|{}", panic_signature(p)), format!("fault-free TLS run: {}", base.result.brief()));
+        return;
+    }
+    if !base.result.is_ok() || blog.borrow().tls_error.is_some() {
+        ex.fail("c19-tls-baseline", format!("fault-free TLS run returned {} (TLS error: {:?})", base.result.brief(), blog.borrow().tls_error));
+        return;
+    }
+    // (a) clean close after the first m messages
+    for m in 0..=messages.len() {
+        let (o, log) = run_tls(m, Fault::None, true);
+        runs += 1;
+        let what = format!("TLS client closes cleanly after {} of {} messages (TLS handshake done: {})", m, messages.len(), log.borrow().handshake_done);
+        match &o.result {
+            RunResult::Panic(p) => {
+                ex.fail(format!("c19-tls-panic|{}", panic_signature(p)), format!("{}: {}", what, o.result.brief()));
+                return;
+            }
+            RunResult::Ok if m == 0 => {
+                ex.fail("c19-tls-close-before-handshake-ok", format!("{}: the connection ended before the handshake completed, run_on returned Ok ({} callbacks ran)", what, o.events.len()));
+                return;
+            }
+            RunResult::Ok => {}
+            _ if m == 0 => {}
+            other => {
+                ex.fail("c19-tls-close-at-boundary-err", format!("{}: a close at a command boundary, run_on returned {}", what, other.brief()));
+                return;
+            }
+        }
+        if m == 0 && !o.events.is_empty() {
+            ex.fail("c19-tls-callback-before-handshake", format!("{}: callback {} ran", what, o.events[0].brief()));
+            return;
+        }
+        if !is_prefix(&o.events, &base.events) {
+            ex.fail("c19-tls-callbacks", format!("{}: callback log is not a prefix of the fault-free log", what));
+            return;
+        }
+    }
+    // (b) abrupt end of stream before the encrypted handshake response was delivered (lock-step:
+    // the client sends nothing beyond it before the reply)
+    let (lbase, _) = run_tls(messages.len(), Fault::None, true);
+    runs += 1;
+    let auth_op = lbase.event_ops.first().copied().unwrap_or(0);
+    let delivered = lbase.ops.iter().take(auth_op).filter(|op| op.kind == OpKind::Read).map(|op| op.at + op.n).max().unwrap_or(0);
+    if delivered > 0 {
+        for pick in &t.picks {
+            let k = (*pick as u64 * delivered as u64 >> 32) as usize;
+            let (o, _) = run_tls(messages.len(), Fault::EofAfter(k), true);
+            runs += 1;
+            match &o.result {
+                RunResult::ErrIo { .. } => {}
+                RunResult::Panic(p) => {
+                    ex.fail(format!("c19-tls-panic|{}", panic_signature(p)), format!("end of stream after {} of the {} bytes up to the encrypted handshake response: {}", k, delivered, o.result.brief()));
+                    return;
+                }
+                other => {
+                    ex.fail("c19-tls-eof-before-handshake-ok", format!("end of stream after {} of the {} bytes up to the encrypted handshake response: run_on returned {}", k, delivered, other.brief()));
+                    return;
+                }
+            }
+            if !o.events.is_empty() {
+                ex.fail("c19-tls-callback-before-handshake", format!("end of stream after {} bytes: callback {} ran", k, o.events[0].brief()));
+                return;
+            }
+        }
+    }
+    ex.count("faulted_runs", runs);
 }
